@@ -564,8 +564,22 @@ def call(fn, args=(), kw=()):
         return call(fn, (args[0].a[0],) + tuple(args[1:]), kw)  # np.zeros((n,)) is np.zeros(n)
     if name in ("np.empty", "np.zeros") and len(args) == 1 and not kw and is_const(args[0], 0):
         return call(ext("np.array"), (lst([]),))  # np.empty(0) is np.array([])
-    if name == "np.asarray" and len(args) == 1 and len(kw) == 1 and kw[0][0] == "dtype" and (args[0].op in ("cmp", "bool") or (args[0].op in ("call", "sub", "param", "loop", "loopvar", "upd", "bin", "iter") and ((kw[0][1].op == "builtin" and kw[0][1].a[0] == "int") or (kw[0][1].op == "ext" and kw[0][1].a[0].startswith("np.int"))))):
+    if name == "np.asarray" and len(args) == 1 and len(kw) == 1 and kw[0][0] == "dtype" and (args[0].op in ("cmp", "bool") or (_fresh_array(args[0]) and ((kw[0][1].op == "builtin" and kw[0][1].a[0] == "int") or (kw[0][1].op == "ext" and kw[0][1].a[0].startswith("np.int"))))):
         return call(ext("astype"), (args[0], kw[0][1]))  # np.asarray(mask, dtype=T) is mask.astype(T)
+    if name == "np.append" and len(args) == 2 and len(kw) == 1 and kw[0][0] == "axis" and kw[0][1].op == "const" and kw[0][1].a[0] is not None:
+        return call(ext("np.concatenate"), (lst([args[0], args[1]]),), kw)  # np.append(a, b, axis=k) is np.concatenate([a, b], axis=k)
+    if name == "np.reshape" and len(args) == 2 and not kw and (is_const(args[1], -1) or (args[1].op in ("tuple", "list") and len(args[1].a) == 1 and is_const(args[1].a[0], -1))):
+        return call(ext("np.ravel"), (args[0],))  # x.reshape(-1) is x.ravel()
+    if name == "np.hstack" and len(args) == 1 and not kw and args[0].op in ("tuple", "list") and args[0].a and all(_certainly_1d(z) for z in args[0].a):
+        return call(ext("np.concatenate"), (args[0],))  # for one-dimensional pieces hstack is concatenate
+    if name == "np.append" and len(args) == 2 and not kw and _certainly_1d(args[0]) and _certainly_1d(args[1]):
+        return call(ext("np.concatenate"), (tup([args[0], args[1]]),))  # np.append(a, b) of one-dimensional a, b
+    if name == "np.fromiter" and args and args[0].op == "comp" and args[0].a[0] in ("gen", "list") and len(args) + len(kw) >= 2:
+        # np.fromiter((E for x in X), dtype=float[, count=len(X)]) is np.array([E for x in X]) at the default precision
+        d_ = dict(kw)
+        dt = args[1] if len(args) > 1 else d_.get("dtype")
+        if dt is not None and ((dt.op == "builtin" and dt.a[0] == "float") or (dt.op == "ext" and dt.a[0] in ("np.float64", "np.double", "np.float_"))) and set(d_) <= {"dtype", "count"} and len(args) <= 3:
+            return call(ext("np.array"), (mk("comp", "list", *args[0].a[1:]),))
     if name == "re.match" and len(args) == 2 and not kw and args[0].op == "glob":
         return method_call(args[0], "match", (args[1],))  # re.match(PATTERN, s) is PATTERN.match(s)
     if name == "builtins.len" and len(args) == 1 and not kw and args[0].op in ("tuple", "list") and not any(z.op == "star" for z in args[0].a):
@@ -599,11 +613,52 @@ def call(fn, args=(), kw=()):
     return mk("call", fn, tuple(args), kw)
 
 
+def _format_as_fstring(template, args, kw):
+    """"a{}b{:d}".format(x, y) is f"a{x}b{y:d}": the literal pieces and the interpolated values in order (format
+    specifications are not part of the term in either spelling).  None for templates this does not cover."""
+    import string
+
+    try:
+        pieces = list(string.Formatter().parse(template))
+    except ValueError:
+        return None
+    parts = []
+    auto = 0
+    for lit, field, spec, conv in pieces:
+        if lit:
+            parts.append(const(lit))
+        if field is None:
+            continue
+        if spec and "{" in spec:
+            return None
+        if field == "":
+            if auto is None or auto >= len(args):
+                return None
+            parts.append(args[auto])
+            auto += 1
+        elif field.isdigit():
+            if auto:
+                return None
+            auto = None
+            if int(field) >= len(args):
+                return None
+            parts.append(args[int(field)])
+        elif field.isidentifier() and field in kw:
+            parts.append(kw[field])
+        else:
+            return None
+    return mk("fstr", *parts)
+
+
 def method_call(base, name, args=(), kw=()):
     if name == "reshape" and len(args) > 1 and not kw:
         args = (tup(list(args)),)  # x.reshape(a, b) is np.reshape(x, (a, b))
     if name in METHOD_ALIASES:
         return call(ext(METHOD_ALIASES[name]), (base,) + tuple(args), kw)
+    if name == "format" and base.op == "const" and isinstance(base.a[0], str) and not any(a.op == "star" for a in args) and not any(k is None for k, _ in kw):
+        f = _format_as_fstring(base.a[0], tuple(args), dict(kw))
+        if f is not None:
+            return f
     if name == "astype":
         return call(ext("astype"), (base,) + tuple(args), kw)
     if name == "copy" and not args:
@@ -647,6 +702,14 @@ def sub(base, idx):
     # an element-wise function of a shape tuple, indexed: np.log2(x.shape)[k] is np.log2(x.shape[k])
     if base.op == "call" and callee_name(base.a[0]) in ("np.log2", "np.log", "np.sqrt", "np.abs", "np.exp", "np.log10") and len(base.a[1]) == 1 and not base.a[2] and base.a[1][0].op == "attr" and base.a[1][0].a[1] == "shape" and idx.op == "const" and isinstance(idx.a[0], float):
         return call(base.a[0], (sub(base.a[1][0], idx),))
+    # np.transpose(np.array([A, B]))[:, k] is the k-th stacked row (A or B) when these are arrays themselves
+    if base.op == "call" and callee_name(base.a[0]) == "np.transpose" and len(base.a[1]) == 1 and not base.a[2] and idx.op == "tuple" and len(idx.a) == 2 and _is_full_slice(idx.a[0]) and idx.a[1].op == "const" and isinstance(idx.a[1].a[0], float) and not isinstance(idx.a[1].a[0], bool):
+        inner = base.a[1][0]
+        if inner.op == "call" and callee_name(inner.a[0]) in ("np.array", "np.asarray", "np.vstack") and len(inner.a[1]) == 1 and not inner.a[2] and inner.a[1][0].op in ("list", "tuple"):
+            rows = inner.a[1][0].a
+            k = int(idx.a[1].a[0])
+            if 0 <= k < len(rows) and all(z.op in ("sub", "call", "param", "loop", "upd") and not (z.op == "sub" and z.a[1].op == "const") for z in rows):
+                return rows[k]
     # np.argwhere(m)[i, k] is np.where(m)[k][i]
     if base.op == "call" and callee_name(base.a[0]) == "np.argwhere" and len(base.a[1]) == 1 and idx.op == "tuple" and len(idx.a) == 2 and all(z.op == "const" for z in idx.a):
         return sub(sub(call(ext("np.where"), base.a[1]), idx.a[1]), idx.a[0])
@@ -714,6 +777,39 @@ def lst(items):
 
 def upd(base, how, key, val):
     return mk("upd", base, how, key, val)
+
+
+_VIEWISH = {"np.ravel", "np.reshape", "np.squeeze", "np.transpose", "np.atleast_1d", "np.atleast_2d", "np.atleast_3d", "np.real", "np.imag", "np.expand_dims", "np.swapaxes", "np.broadcast_to", "np.asanyarray", "np.asarray", "np.ascontiguousarray", "np.moveaxis", "np.rollaxis", "np.diagonal", "np.split", "np.array_split", "np.hsplit", "np.vsplit", "np.flipud", "np.fliplr", "np.flip", "np.rot90", "np.view", "np.array", "astype", "np.nan_to_num"}
+
+
+def _certainly_1d(t, depth=0):
+    """the value is a one-dimensional array whatever the input: a flattened array, a range, a slice of one"""
+    if depth > 10:
+        return False
+    if t.op == "call" and t.a[0].op == "ext":
+        n = t.a[0].a[0]
+        if n in ("np.ravel", "np.flatten", "np.arange", "np.flatnonzero", "np.linspace"):
+            return True
+        if n in ("np.unique",) and not t.a[2]:
+            return True
+        if n in ("np.concatenate",) and not t.a[2] and len(t.a[1]) == 1 and t.a[1][0].op in ("tuple", "list") and t.a[1][0].a:
+            return all(_certainly_1d(z, depth + 1) for z in t.a[1][0].a)
+        if n in ("np.abs", "np.sort", "np.copy", "np.cumsum", "astype", "np.asarray") and t.a[1]:
+            return _certainly_1d(t.a[1][0], depth + 1)
+    if t.op == "sub" and t.a[1].op == "slice":
+        return _certainly_1d(t.a[0], depth + 1)
+    return False
+
+
+def _fresh_array(t):
+    """the value is certainly an array nobody else holds (an arithmetic result, or what a numpy function that never
+    returns a view of its argument computed): np.asarray(t, dtype=T) and t.astype(T) cannot be told apart"""
+    if t.op in ("bin", "un", "cmp", "bool"):
+        return True
+    if t.op == "call" and t.a[0].op == "ext":
+        n = t.a[0].a[0]
+        return (n.startswith("np.") or n.startswith("scipy.")) and n not in _VIEWISH and ".lib." not in n
+    return False
 
 
 def callee_name(fn):
